@@ -1,19 +1,30 @@
 #!/usr/bin/env python3
-"""Generate zipsrc/Cargo.toml: a package named `zip` whose library root is /repo/src/lib.rs (the
-working tree itself, no copy), with the repository's own dependency table plus loom."""
-import os, re, sys
+"""Generate zipsrc/: a package named `zip` built from /repo's working tree, with the repository's own dependency
+table plus loom.
+
+Mode "rewrite" (default): the sources are COPIED to zipsrc/src and every std synchronisation primitive that loom
+models is switched to loom's by text: std::sync::atomic::*, std::sync::{Arc, Mutex, RwLock, Condvar, mpsc, Barrier?}.
+The hook H2 in /repo (cfg zip_rs_zip_verif_loom) already does that for the Arc and AtomicU64 the pinned tree uses; the
+rewrite extends it to whatever an edited tree has added, so that loom also explores interleavings inside locks and
+atomics the hook does not know about. What loom has no model for (OnceLock, OnceCell, LazyLock, thread_local, UnsafeCell)
+is left alone and listed on stdout as `UNINTERCEPTED ...`.
+
+Mode "direct" (argument `direct`): the library root is /repo/src/lib.rs itself, no copy (the fallback when the rewritten
+copy does not build)."""
+import os, re, sys, shutil
 repo = os.environ.get('ZIPMC_REPO', '/repo')
+mode = sys.argv[1] if len(sys.argv) > 1 else 'rewrite'
 here = os.path.dirname(os.path.abspath(__file__))
+zs = os.path.join(here, 'zipsrc')
 src = open(os.path.join(repo, 'Cargo.toml')).read()
-# keep [package] basics, [dependencies], [target...dependencies] and [features]
 out = []
-keep = False
 for block in re.split(r'(?m)^(?=\[)', src):
     head = block.split('\n', 1)[0].strip()
     if head in ('[dependencies]', '[features]') or (head.startswith('[target.') and head.endswith('.dependencies]')):
         out.append(block.rstrip() + '\n')
 m = re.search(r'(?m)^version\s*=\s*"([^"]+)"', src)
 version = m.group(1) if m else '0.0.0'
+libpath = f'{repo}/src/lib.rs' if mode == 'direct' else 'src/lib.rs'
 pkg = f'''[package]
 name = "zip"
 version = "{version}"
@@ -21,12 +32,78 @@ edition = "2021"
 publish = false
 
 [lib]
-path = "{repo}/src/lib.rs"
+path = "{libpath}"
 
 '''
 text = pkg + '\n'.join(out)
 text = text.replace('[dependencies]\n', '[dependencies]\nloom = "0.7"\n', 1)
-os.makedirs(os.path.join(here, 'zipsrc'), exist_ok=True)
-p = os.path.join(here, 'zipsrc', 'Cargo.toml')
+os.makedirs(zs, exist_ok=True)
+p = os.path.join(zs, 'Cargo.toml')
 if not os.path.exists(p) or open(p).read() != text:
     open(p, 'w').write(text)
+
+LOOM_SYNC = {'Arc', 'Mutex', 'MutexGuard', 'RwLock', 'RwLockReadGuard', 'RwLockWriteGuard', 'Condvar', 'mpsc', 'atomic', 'Notify', 'WaitTimeoutResult', 'LockResult', 'TryLockError', 'TryLockResult', 'PoisonError'}
+# (the last five are re-exported by loom::sync from std)
+LOOM_SYNC_REEXPORT_OK = {'Arc', 'Mutex', 'MutexGuard', 'RwLock', 'RwLockReadGuard', 'RwLockWriteGuard', 'Condvar', 'mpsc', 'atomic', 'LockResult', 'TryLockError', 'TryLockResult', 'WaitTimeoutResult'}
+
+def split_items(body):
+    items, depth, cur = [], 0, ''
+    for ch in body:
+        if ch == '{': depth += 1
+        if ch == '}': depth -= 1
+        if ch == ',' and depth == 0:
+            items.append(cur.strip()); cur = ''
+        else:
+            cur += ch
+    if cur.strip(): items.append(cur.strip())
+    return items
+
+def rewrite(code):
+    # grouped imports: use std::sync::{A, B, atomic::{..}};
+    def grp(mo):
+        vis, body = mo.group(1) or '', mo.group(2)
+        lo, st = [], []
+        for it in split_items(body):
+            head = re.split(r'[:{ ]', it, 1)[0]
+            (lo if head in LOOM_SYNC_REEXPORT_OK else st).append(it)
+        res = []
+        if lo: res.append(f'{vis}use loom::sync::{{{", ".join(lo)}}};')
+        if st: res.append(f'{vis}use std::sync::{{{", ".join(st)}}};')
+        return '\n'.join(res)
+    code = re.sub(r'(?m)^(\s*(?:pub(?:\([a-z]+\))?\s+)?)use std::sync::\{([^;]*)\};', grp, code)
+    # plain paths
+    for name in sorted(LOOM_SYNC_REEXPORT_OK, key=len, reverse=True):
+        code = re.sub(r'\bstd::sync::' + name + r'\b', 'loom::sync::' + name, code)
+    code = re.sub(r'\bcore::sync::atomic\b', 'loom::sync::atomic', code)
+    code = re.sub(r'\bstd::thread::yield_now\b', 'loom::thread::yield_now', code)
+    code = re.sub(r'\bstd::hint::spin_loop\b', 'loom::hint::spin_loop', code)
+    return code
+
+if mode != 'direct':
+    dst = os.path.join(zs, 'src')
+    if os.path.isdir(dst):
+        shutil.rmtree(dst)
+    left = []
+    for root, dirs, files in os.walk(os.path.join(repo, 'src')):
+        rel = os.path.relpath(root, os.path.join(repo, 'src'))
+        os.makedirs(os.path.join(dst, rel), exist_ok=True)
+        for f in files:
+            sp = os.path.join(root, f)
+            dp = os.path.join(dst, rel, f)
+            if f.endswith('.rs'):
+                code = rewrite(open(sp, encoding='utf-8', errors='replace').read())
+                open(dp, 'w', encoding='utf-8').write(code)
+                for k, line in enumerate(code.split('\n'), 1):
+                    s = line.strip()
+                    if s.startswith('//'):
+                        continue
+                    if re.search(r'std::sync::(Once|OnceLock|LazyLock|Barrier|Weak)\b|std::cell::|core::cell::|thread_local!|static mut |\bunsafe\b|std::thread::', line):
+                        left.append(f'{os.path.join(rel, f)}:{k}: {s[:100]}')
+            else:
+                shutil.copy(sp, dp)
+    # files referenced from the sources by include_str!/include_bytes! relative paths outside src/ are rare; README is the usual one
+    for extra in ('README.md',):
+        if os.path.exists(os.path.join(repo, extra)):
+            shutil.copy(os.path.join(repo, extra), os.path.join(zs, extra))
+    for l in left[:20]:
+        print('UNINTERCEPTED', l)
